@@ -325,6 +325,9 @@ func numericLaws() []L {
 					return "sign-decimal"
 				}
 				if !v[2].IsInt(an) {
+					if (n == -128 || n == -32768 || n == -2147483648) && v[2].IsInt(n) {
+						return "abs-of-minimum-of-narrow-int-type-wraps"
+					}
 					return "abs-integer"
 				}
 				s := 0
@@ -469,15 +472,16 @@ func numericLaws() []L {
 					return ""
 				}
 				// known finding: every numeric argument is compared (and returned) as a float64
-				lossy := false
-				for _, x := range nums {
-					f, exact := x.Float64()
-					_ = f
-					if !exact {
+				lossy, lossyInt := false, false
+				for i, x := range nums {
+					if _, exact := x.Float64(); !exact {
 						lossy = true
+						if isInt[i] {
+							lossyInt = true
+						}
 					}
 				}
-				if kind == 0 && lossy {
+				if lossyInt {
 					return "integer-argument-beyond-2^53-compared-as-double"
 				}
 				if (kind == 1 || kind == 3) && lossy && ok1 && ok2 && sameAsDouble(g, mx) && sameAsDouble(l, mn) {
@@ -621,7 +625,7 @@ func numericLaws() []L {
 				if fr.Cmp(big.NewRat(1, 2)) == 0 && got == groupDigits(truncateTo(x.val, d).FloatString(d)) {
 					return "exact-tie-rounded-down-through-double"
 				}
-				if coefDigits(x.text) > 15 {
+				if coefDigits(x.text) > 15 || len(floorRat(sc).String()) > 15 {
 					return "more-than-15-significant-digits-through-double"
 				}
 				return "digits-differ-from-rounded-value"
